@@ -75,6 +75,46 @@ def r15_6(chk, facts):
             else: chk.fail('R15.6', site, fn['file'], fn['l'], '~operation_unwinder %s the undo log when state == %s; every state except commit must roll back (after an exception the state is still begin)' % (
                 'replays' if replays else 'does not replay', sname), {'state': sname}, fn['q'])
 
+def r19_5(chk, facts):
+    """Recording the inverse must not be able to fail once the mutation has happened."""
+    chk.rule('R19.5', 'undo recording cannot fail: the undo entry that follows a mutation of the target in apply_patch is recorded without '
+                      'allocating (moved from an entry built before the mutation into capacity reserved before it); otherwise an allocation '
+                      'failure in the recording leaves the mutation un-logged and the target is not restored', floor=6)
+    fns = [f for f in facts.functions if f['n'] == 'apply_patch' and not f.get('dep') and f.get('body') is not None and len(f['params']) == 3]
+    chk.require(fns, 'jsonpatch::apply_patch(target, patch, ec) not found')
+    for fn in U.one_per_inst(fns)[:1]:
+        chk.analysed(fn)
+        g = C.CFG(fn['body'])
+        muts = []; pushes = []; reserves = []
+        for nd in g.rpo:
+            if nd.kind not in ('stmt', 'cond') or not isinstance(nd.ast, dict): continue
+            for c in A.calls_in(nd.ast):
+                if is_mut(c): muts.append((nd, c))
+                o = A.strip(c.get('obj'), casts=True) if c.get('obj') is not None else None
+                if o is not None and o.get('k') == 'MemberExpr' and o.get('n') == 'stack':
+                    if A.callee_name(c) in ('emplace_back', 'push_back'): pushes.append((nd, c))
+                    if A.callee_name(c) == 'reserve': reserves.append(nd)
+        chk.require(len(muts) >= 6 and pushes, 'R19.5: mutations / undo pushes not found in apply_patch')
+        push_nodes = [p_[0] for p_ in pushes]; mut_nodes = [m[0] for m in muts]
+        for i, (mn, mc) in enumerate(muts):
+            kind = A.callee_name(mc)
+            args = mc.get('args') or []
+            ptxt = A.text(A.strip(args[1], casts=True)) if len(args) > 1 else '?'
+            site = U.site(fn, 'mutation#%d %s(%s) undo recording' % (i + 1, kind, ptxt))
+            # the pushes reachable from the mutation before another mutation
+            nxt = [(pn, pc) for pn, pc in pushes if any(g.can_reach(s2, [pn], avoid=[x for x in mut_nodes if x is not mn] + [x for x in push_nodes if x is not pn]) for s2 in mn.succ)]
+            if not nxt:
+                chk.ok('R19.5', site, {'note': 'no undo push follows directly (checked by R15.1)'}); continue
+            bad = None
+            for pn, pc in nxt:
+                a = pc.get('args') or []
+                moved_local = len(a) == 1 and any(A.callee_name(y) == 'move' for y in A.calls_in(a[0])) and A.callee_name(pc) == 'push_back'
+                reserved = any(g.dominates(r, mn) for r in reserves)
+                if not (moved_local and reserved): bad = (pn, pc)
+            if bad is None: chk.ok('R19.5', site, {'line': mc.get('l')})
+            else: chk.fail('R19.5', site, fn['file'], bad[1].get('l'), 'apply_patch: after %s(target, %s) at line %s the inverse is recorded by stack.%s(op, path, value) at line %s, which copies the path and value and may grow the vector: if that allocation fails the mutation stays applied and is not rolled back' % (
+                kind, ptxt, mc.get('l'), A.callee_name(bad[1]), bad[1].get('l')), {'mutation_line': mc.get('l'), 'push_line': bad[1].get('l')}, fn['q'])
+
 def run(chk, tier, only_rule=None):
     chk.explanation = EXPLANATION
     chk.not_decided = NOT_DECIDED
@@ -224,6 +264,7 @@ def run(chk, tier, only_rule=None):
         else: chk.fail('R15.4', site, fn['file'], fn['l'], 'the undo log is not replayed in reverse order', None, fn['q'])
     # apply_patch works through the jsonpointer operations: their exact bounds (add at index == size appends) and error-before-mutation
     # discipline are part of the patch semantics and of its atomicity
+    r19_5(chk, facts)
     from . import c14
     c14.r14_4(chk, facts)
     c14.r14_5(chk, facts)
